@@ -17,7 +17,9 @@ package cert
 //@   ensures [view-bound] result == nil && !isGenesisHash(qc.hash) ==> c.blockchain.blocks[qc.hash].view == qc.view
 //@   ensures [genesis-view] result == nil && isGenesisHash(qc.hash) ==> qc.view == hotstuff.genesisBlock.view
 //@   ensures [qcok] result == nil ==> qcok(c, qc)
+//@   ghost ensures result == nil ==> qcAccepted(c, qc)
 //@   ensures [inv] blockchain.binv(c.blockchain) && blockchain.bmaps(c.blockchain)
+//@   ensures [stores] blockchain.entrieskept()
 //@   modifies c.blockchain.blocks[*], c.blockchain.blockAtHeight[*], c.blockchain.pendingFetch[*], c.blockchain.eventLoop.handlers[*], alloc
 
 // Accepted timeout certificates: a quorum of participants, each with a valid signature over
@@ -27,12 +29,14 @@ package cert
 //@   ensures [quorum] result == nil && tc.view != 0 ==> tc.signature != nil && hotstuff.setlen(hotstuff.parts(tc.signature)) >= quorum(c)
 //@   ensures [content] result == nil && tc.view != 0 ==> (forall id hotstuff.ID :: hotstuff.setmem(hotstuff.parts(tc.signature), id) ==> crypto.sigvalid(c.Base, tc.signature, id, hotstuff.viewcontent(tc.view)))
 //@   ensures [tcok] result == nil ==> tcok(c, tc)
+//@   ghost ensures result == nil ==> tcAccepted(c, tc)
 //@   modifies alloc
 
 //@ func (*Authority).VerifyPartialCert property C02,C10,C20
 //@   requires awf(c)
 //@   ensures [content] result == nil ==> cert.signature != nil && has(c.blockchain.blocks, cert.blockHash) && (forall id hotstuff.ID :: hotstuff.setmem(hotstuff.parts(cert.signature), id) ==> crypto.sigvalid(c.Base, cert.signature, id, hotstuff.blockcontent(c.blockchain.blocks[cert.blockHash])))
 //@   ensures [inv] blockchain.binv(c.blockchain) && blockchain.bmaps(c.blockchain)
+//@   ensures [stores] blockchain.entrieskept()
 //@   modifies c.blockchain.blocks[*], c.blockchain.blockAtHeight[*], c.blockchain.pendingFetch[*], c.blockchain.eventLoop.handlers[*], alloc
 
 // A QC satisfies qcok when it is the genesis QC or carries a quorum of valid signatures over
@@ -43,7 +47,9 @@ package cert
 //@   requires awf(c) && hotstuff.genesisBlock != nil
 //@   ensures [valid] err == nil ==> qcok(c, highQC)
 //@   ensures [inv] blockchain.binv(c.blockchain) && blockchain.bmaps(c.blockchain)
+//@   ensures [stores] blockchain.entrieskept()
 //@   loop 0 invariant [inv] blockchain.binv(c.blockchain) && blockchain.bmaps(c.blockchain)
+//@   loop 0 invariant [stores] blockchain.entrieskept()
 //@   modifies qcs[*], c.blockchain.blocks[*], c.blockchain.blockAtHeight[*], c.blockchain.pendingFetch[*], c.blockchain.eventLoop.handlers[*], alloc
 
 // Accepted aggregate certificates: a quorum of participants, each with a valid signature
@@ -55,7 +61,9 @@ package cert
 //@   ensures [content] err == nil ==> (forall id hotstuff.ID :: hotstuff.setmem(hotstuff.parts(aggQC.sig), id) ==> has(aggQC.qcs, id) && crypto.sigvalid(c.Base, aggQC.sig, id, hotstuff.tmcontent(id, aggQC.view, true, aggQC.qcs[id])))
 //@   ensures [highqc-valid] err == nil ==> qcok(c, highQC)
 //@   ensures [aggok] err == nil ==> aggok(c, aggQC)
+//@   ghost ensures err == nil ==> aggAccepted(c, aggQC)
 //@   ensures [inv] blockchain.binv(c.blockchain) && blockchain.bmaps(c.blockchain)
+//@   ensures [stores] blockchain.entrieskept()
 //@   loop 0 invariant [msgs] forall id hotstuff.ID :: has(messages, id) ==> has(aggQC.qcs, id) && content(messages[id]) == hotstuff.tmcontent(id, aggQC.view, true, aggQC.qcs[id])
 //@   loop 0 invariant [fresh] fresh(qcs) && messages != nil && fresh(messages)
 //@   modifies c.blockchain.blocks[*], c.blockchain.blockAtHeight[*], c.blockchain.pendingFetch[*], c.blockchain.eventLoop.handlers[*], alloc
@@ -66,7 +74,16 @@ package cert
 //@   requires awf(c) && hotstuff.genesisBlock != nil && proposal != nil && proposal.Block != nil
 //@   ensures [qc-valid] result == nil ==> qcok(c, proposal.Block.cert)
 //@   ensures [inv] blockchain.binv(c.blockchain) && blockchain.bmaps(c.blockchain)
+//@   ensures [stores] blockchain.entrieskept()
 //@   modifies c.blockchain.blocks[*], c.blockchain.blockAtHeight[*], c.blockchain.pendingFetch[*], c.blockchain.eventLoop.handlers[*], alloc
+
+// History facts: qcAccepted(c, qc) names the event "VerifyQuorumCert(qc) returned nil at
+// authority c" (likewise for TCs and aggregate QCs). They are uninterpreted and only ever
+// asserted positively by the ghost postconditions of the three functions; what acceptance
+// implies is stated by their checked postconditions (qcok / tcok / aggok at that time).
+//@ pure func qcAccepted(c *Authority, qc hotstuff.QuorumCert) bool
+//@ pure func tcAccepted(c *Authority, tc hotstuff.TimeoutCert) bool
+//@ pure func aggAccepted(c *Authority, agg hotstuff.AggregateQC) bool
 
 // tcok / aggok: what an accepted timeout certificate / aggregate certificate guarantees.
 //@ pred tcok(c *Authority, tc hotstuff.TimeoutCert) = tc.view == 0 || (tc.signature != nil && hotstuff.setlen(hotstuff.parts(tc.signature)) >= quorum(c) && (forall id hotstuff.ID :: hotstuff.setmem(hotstuff.parts(tc.signature), id) ==> crypto.sigvalid(c.Base, tc.signature, id, hotstuff.viewcontent(tc.view))))
